@@ -164,6 +164,10 @@ def run_case(case):
             if any('constraints' in fd for fd in fields):
                 cov['config']['lexical_constraint_values'] = 1
         res.append({'name': 'res%d' % r, 'fields': fields, 'rows': rows, 'pk': pk, 'missing': missing})
+    if filehash and len(res) > 1 and boot.rng(case['seed'], 'C03', 'twins', case['idx']).random() < 0.5:
+        # two resources whose written files are byte-identical (same hash, different names)
+        res[1] = dict(copy.deepcopy(res[0]), name=res[1]['name'])
+        cov['config']['filehash/two_resources_with_identical_content'] = 1
     out = 'out_pkg' if kind == 'path' else 'out.zip'
     opts = {'format': fmt}
     if filehash:
